@@ -232,3 +232,29 @@ def __places(st):
 
 def names(b, ls):
     return sorted(b.var_name(l) or f'_{l}' for l in ls)
+
+
+def compaction_touches_only_what_it_merged(ctx, prog, rid):
+    """shared with C09: under the table lock the compactor reads and tombstones the delete vectors of the merged row-sets only"""
+    ctx.rule(rid, 'under its table lock the compactor may only retire what it merged: every Snapshot::get_dvs_of in compact_table takes '
+                  'its row-set id from the collection that feeds DiskRowset::iter (the merge inputs); retiring the delete vectors of a '
+                  'row-set that stays resurrects the rows an acknowledged DELETE removed from it')
+    b = prog.body(COMPACT)
+    if not ctx.anchor(rid, COMPACT, b is not None):
+        return
+    ctx.functions_analysed.add(b.name)
+    vecs = vec_rowset_locals(b)
+    iters = [c for c in b.calls if (c.fn or '').endswith('DiskRowset::iter')]
+    read_src = set()
+    for c in iters:
+        read_src |= origin_locals(b, c.args[0]['pl']['l']) & vecs
+    if not ctx.anchor(rid, 'compact_table: merge inputs', len(read_src) == 1):
+        return
+    S = next(iter(read_src))
+    gd = [c for c in b.calls if (c.fn or '').endswith('Snapshot::get_dvs_of')]
+    if ctx.anchor(rid, 'compact_table:Snapshot::get_dvs_of', gd):
+        bad = [c for c in gd if not (len(c.args) > 2 and c.args[2]['k'] != 'const' and S in origin_locals(b, c.args[2]['pl']['l'], depth=20))]
+        ctx.ob(rid, 'compact_table·dvs-of-the-merged-set', not bad,
+               f'{len(gd)} get_dvs_of call(s); row-set id not taken from `{b.var_name(S)}`: {[site(b, c.bb) for c in bad]}',
+               [site(b, c.bb) for c in (bad or gd)],
+               what='compaction retires the delete vectors of row-sets it did not merge: rows deleted from the untouched row-sets reappear')
